@@ -1,6 +1,80 @@
-// roots kinds -- filled in by the corresponding check (see /verif/CONVENTIONS.md).
+// Polynomial root finder kinds (C10).  elt = f64 (Polynomial<f64>::roots) | cplx (Polynomial<Cmplx>::roots).
+//
+//   roots.solve [coeffs] <refine 0|1> <dumplog 0|1>
+//     -> usize n, then n complex roots (2n floats);
+//        with dumplog = 1 additionally the libm call log recorded by the cfg(ohsl_verif) hook
+//        (DESIGN section 9): usize count, then per call  i<which> i<arg0..arg3> i<res0> i<res1>
+//        (u64 bit patterns; which: 0 sqrt, 1 pow, 2 polar), or the tag `tnohook` when the ohsl tree
+//        the executor was built against does not carry the hook (see harness/build.rs).
+//   roots.prim <which> xA xB xC xD   -> the two result floats of Complex::sqrt / pow / polar (public API)
 #![allow(unused_imports, dead_code)]
+use ohsl::{Cmplx, Polynomial, Vector};
 use crate::io::{Args, Out, Elt};
-pub fn run(_elt: &str, kind: &str, _a: &mut Args, _out: &mut Out) {
-    panic!("harness: unknown kind {}", kind);
+
+#[cfg(ohsl_has_hook)]
+mod hook {
+    pub const PRESENT: bool = true;
+    pub fn start() { ohsl::verif_hooks::start(); }
+    pub fn take() -> Vec<(u8, [u64; 4], [u64; 2])> { ohsl::verif_hooks::take() }
+}
+#[cfg(not(ohsl_has_hook))]
+mod hook {
+    pub const PRESENT: bool = false;
+    pub fn start() {}
+    pub fn take() -> Vec<(u8, [u64; 4], [u64; 2])> { Vec::new() }
+}
+
+pub fn run(elt: &str, kind: &str, a: &mut Args, out: &mut Out) {
+    match kind {
+        "roots.solve" => {
+            let roots: Vector<Cmplx>;
+            let log;
+            match elt {
+                "f64" => {
+                    let c = a.vec_std::<f64>();
+                    let refine = a.usize() != 0;
+                    let p = Polynomial::<f64>::new(c);
+                    hook::start();
+                    let r = std::panic::catch_unwind(std::panic::AssertUnwindSafe(|| p.roots(refine)));
+                    log = hook::take();
+                    roots = match r { Ok(v) => v, Err(e) => std::panic::resume_unwind(e) };
+                }
+                "cplx" => {
+                    let c = a.vec_std::<Cmplx>();
+                    let refine = a.usize() != 0;
+                    let p = Polynomial::<Cmplx>::new(c);
+                    hook::start();
+                    let r = std::panic::catch_unwind(std::panic::AssertUnwindSafe(|| p.roots(refine)));
+                    log = hook::take();
+                    roots = match r { Ok(v) => v, Err(e) => std::panic::resume_unwind(e) };
+                }
+                _ => panic!("harness: roots.solve needs elt f64 or cplx, got {}", elt),
+            }
+            let dumplog = a.usize() != 0;
+            out.v(&roots);
+            if dumplog {
+                if !hook::PRESENT { out.tag("nohook"); }
+                else {
+                    out.usize(log.len());
+                    for (which, args, res) in log.iter() {
+                        out.int(*which as i128);
+                        for x in args.iter() { out.int(*x as i128); }
+                        for x in res.iter() { out.int(*x as i128); }
+                    }
+                }
+            }
+        }
+        "roots.prim" => {
+            let which = a.usize();
+            let (x0, x1, x2, x3) = (a.f64(), a.f64(), a.f64(), a.f64());
+            let r = match which {
+                0 => Cmplx::new(x0, x1).sqrt(),
+                1 => Cmplx::new(x0, x1).pow(&Cmplx::new(x2, x3)),
+                2 => Cmplx::polar(x0, x1),
+                _ => panic!("harness: roots.prim which = {}", which),
+            };
+            out.f(r.real); out.f(r.imag);
+        }
+        _ => panic!("harness: unknown kind {}", kind),
+    }
 }
